@@ -318,6 +318,7 @@ def _run_stream(exe, lines, restart_on_death, env=None):
 
 
 HANG_SECONDS = int(os.environ.get("VERIF_HANG_SECONDS", "120"))
+_HANGS_SEEN = [0]
 ADDRESS_SPACE_LIMIT = 24 << 30
 
 
@@ -372,8 +373,12 @@ def _run_watched(exe, data, env):
             p.wait(timeout=0.2)
             break
         except subprocess.TimeoutExpired:
-            if time.time() - last[0] > HANG_SECONDS:
+            # the first hang of a run waits the full time; once one operation of this tree is known not to
+            # terminate, later ones (shrinking re-runs them) are given up on sooner
+            limit = HANG_SECONDS if _HANGS_SEEN[0] == 0 else max(15, HANG_SECONDS // 8)
+            if time.time() - last[0] > limit:
                 hung = True
+                _HANGS_SEEN[0] += 1
                 p.kill()
                 p.wait()
                 break
